@@ -9,7 +9,7 @@ Streams
   values-render    : random trees with relative font-size / length / line-height / font-weight values
   page-render      : @page declarations (add_page_declarations)
 """
-import random, itertools, json, os, glob, math
+import random, itertools, json, os, glob, math, time
 from fractions import Fraction
 import common
 from common import slit
@@ -1050,6 +1050,8 @@ def gen_direct(rng, thorough):
                      is_root=rng.random() < 0.4, name=rng.choice(['margin_left', 'margin_left', 'font_size']),
                      value=rng.choice(['auto', 'content', 'from-font']) if rng.random() < 0.08 else
                      [rq(rng, -8, 40), rng.choice(units)])
+            if c['is_root']:
+                c['root_fs'] = '16'       # set_computed_styles: the root element's root_style is the initial size
             cases.append(('length', c, None))
         elif r < 0.75:
             rr = rng.random()
@@ -1057,12 +1059,17 @@ def gen_direct(rng, thorough):
                 [rq(rng, 0, 40), rng.choice(units)]
             c = dict(base, parent_fs=rng.choice([None, rq(rng), rq(rng), rq(rng, 0, 8)]), value=v)
             c.pop('own_fs')
+            if c['parent_fs'] is None:
+                c['root_fs'] = '16'
             cases.append(('font_size', c, None))
         else:
             rr = rng.random()
             v = 'normal' if rr < 0.1 else [rq(rng, 0, 4), None] if rr < 0.4 else [rq(rng, 0, 300), '%'] if rr < 0.7 \
                 else [rq(rng, 0, 40), rng.choice([u for u in units if u != '%'])]
-            cases.append(('line_height', dict(base, value=v, is_root=rng.random() < 0.4), None))
+            c = dict(base, value=v, is_root=rng.random() < 0.4)
+            if c['is_root']:
+                c['root_fs'] = '16'
+            cases.append(('line_height', c, None))
     # larger / smaller around every table boundary
     for b in [Fraction(48, 5), 12, Fraction(128, 9), 16, Fraction(96, 5), 24, 32]:
         for dlt in [Fraction(-1, 100), 0, Fraction(1, 100)]:
@@ -1619,12 +1626,20 @@ def check(run):
     # replay the corpus first
     for p in sorted(glob.glob(os.path.join(common.VERIF, 'corpus', 'C06', '*.json'))):
         pass
+    clock = [time.time()]
+
+    def lap(stream):
+        run.stream_info(stream, seconds=round(time.time() - clock[0], 1))
+        clock[0] = time.time()
+    run.stream_info('proofs', seconds=round(time.time() - run.t0, 1))
     # ---- direct streams
     run_direct(run, rng, thorough)
+    lap('values-direct')
     # ---- random documents
     attr_case = finding_listed('c06-stylesheet-attr-case')
     docs = [gen_doc(rng, attr_case) for _ in range(2000 if thorough else 420)]
     run_cascade_stream(run, 'cascade-render', docs, thorough)
+    lap('cascade-render')
     run.stream_info('cascade-render', rule='random DOM (<= 12 elements) x 1..8 rules over UA / user / author (<style> in '
                     'head or body, <link>, @import chains, style=, presentational hints), +-!important, @media blocks '
                     'and media attributes, print/screen device, inherit/initial keywords, ::before; 4 tracked '
@@ -1645,8 +1660,11 @@ def check(run):
     for k in K:
         tdocs.append(tuple_doc((k,), 'div', 0))
     run_cascade_stream(run, 'cascade-tuples', tdocs, thorough)
+    lap('cascade-tuples')
     run_values_render(run, rng, thorough)
+    lap('values-render')
     run_page_render(run, rng, thorough)
+    lap('page-render')
     run.stream_info('cascade-tuples', kinds=len(KINDS),
                     rule='all ordered pairs (x 2 targets x 2 sheet layouts) and %s ordered triples of %d declaration '
                     'kinds (origin x container x selector specificity x importance, style attribute, presentational '
